@@ -100,9 +100,9 @@ func implJSON(args [][]byte) string {
 func runC19(c *core.Ctx) {
 	const thm = "C19_roundtrip (props/C19.v); model op json = Ops.dump_json_roundtrip"
 	c.ReplayKnown()
-	nDocs := 5000
+	nDocs := 15000
 	if !c.Quick {
-		nDocs = 150000
+		nDocs = 300000
 	}
 	feats := map[string]int{}
 	texts := make([]string, nDocs)
